@@ -168,6 +168,19 @@ func (e *Enc) closedFacts(g *ssa.Global, loaded *Val, st *State) {
 				e.assumeHere(eq(loaded.c[0], num(iv)))
 			}
 		}
+	case *types.Slice:
+		// []string (or a named slice of strings): length and every element
+		var ss []string
+		if eb, _ := t.Elem().Underlying().(*types.Basic); eb == nil || eb.Info()&types.IsString == 0 || json.Unmarshal(raw, &ss) != nil {
+			e.unsupported("closed term %s: unsupported slice shape %s", key, loaded.typ)
+			return
+		}
+		facts := []string{eq(loaded.c[2], num(int64(len(ss))))}
+		for i, sv := range ss {
+			ref := app("elem", loaded.c[0], app("+", loaded.c[1], num(int64(i))))
+			facts = append(facts, eq(e.loadAt(st, ref, t.Elem()).c[0], e.strLit(sv)))
+		}
+		e.assumeHere(and(facts...))
 	default:
 		e.unsupported("closed term %s: unsupported shape %s", key, loaded.typ)
 	}
